@@ -93,7 +93,7 @@ type Exec struct {
 	tickers   []tickerRec
 	feas      *Solver
 	feasN     int // assumptions already sent to feas
-	FeasQ, FeasPruned, FeasCached int
+	FeasQ, FeasPruned, FeasCached, PrunedCalls int
 	feasModels []*Model
 	FeasTime  time.Duration
 	FeasOff   bool
